@@ -1,238 +1,24 @@
 import StoneVerif.Model.DeclPyClient
+import StoneVerif.Lemmas.DeclPyClient
 import StoneVerif.Gen.Tables
 /-!
 # C14 — generated Python client methods send the right route and argument
 
 Property theorems over `StoneVerif.DeclPyClient` (the model of `python_client.py`, of `Struct.all_fields`
-under `remove_aliases_from_api`, of the `__init__` python_types generates, and of Python call binding).
+under `remove_aliases_from_api`, of the `__init__` python_types generates, and of Python call binding and name
+resolution). Helper lemmas: `Lemmas/DeclPyClient.lean`.
+
+Every hypothesis that the real generator does not establish is explicit and has a reachable counterexample
+(`example`s below, computed with the model by `decide`; the harness reports the same inputs on the real code):
+`hygienic` (module names the body uses are imported and not hidden by a parameter), `StructArgOk`
+(`noNullableAlias`: python_types and python_client agree on which fields are optional), `nsPrefixFree`,
+`defaultsWellTyped` (a tag default is declared with the union itself, not through an alias), and
+`loadModule = ok` (no duplicate / keyword parameter).
 -/
 namespace StoneVerif.C14
 open StoneVerif.DeclPyClient
 
-/-! ## small list lemmas -/
-
-theorem lookup_zip_map {α : Type} (L : List α) (k : α → Name) (g : α → Val) (a : α) (ha : a ∈ L)
-    (inj : ∀ b ∈ L, k b = k a → g b = g a) :
-    lookup ((L.map k).zip (L.map g)) (k a) = some (g a) := by
-  induction L with
-  | nil => cases ha
-  | cons b L ih =>
-    simp only [List.map_cons, List.zip_cons_cons, lookup]
-    by_cases hk : k b = k a
-    · simp [hk, inj b (by simp) hk]
-    · have hne : (k b == k a) = false := by simpa using hk
-      rw [hne]
-      have : a ∈ L := by
-        cases ha with
-        | head => exact absurd rfl hk
-        | tail _ h => exact h
-      simpa using ih this (fun c hc => inj c (List.mem_cons_of_mem _ hc))
-
-theorem lookup_some_of_mem_keys (σ : List (Name × Val)) (n : Name) (h : n ∈ σ.map (·.1)) :
-    ∃ v, lookup σ n = some v := by
-  induction σ with
-  | nil => cases h
-  | cons p σ ih =>
-    obtain ⟨k, v⟩ := p
-    simp only [lookup]
-    by_cases hk : k = n
-    · exact ⟨v, by simp [hk]⟩
-    · have : (k == n) = false := by simpa using hk
-      rw [this]
-      apply ih
-      simp only [List.map_cons, List.mem_cons] at h
-      rcases h with h | h
-      · exact absurd h.symm hk
-      · exact h
-
-theorem mapM_ok_of_forall {α β ε : Type} (f : α → Except ε β) (g : α → β) (L : List α)
-    (h : ∀ a ∈ L, f a = .ok (g a)) : L.mapM f = .ok (L.map g) := by
-  induction L with
-  | nil => rfl
-  | cons a L ih =>
-    rw [List.mapM_cons, h a (by simp), ih (fun b hb => h b (List.mem_cons_of_mem _ hb))]
-    rfl
-
-theorem mapM_ok_mem {α β ε : Type} (f : α → Except ε β) :
-    ∀ (L : List α) (ys : List β), L.mapM f = .ok ys → ∀ y ∈ ys, ∃ x ∈ L, f x = .ok y := by
-  intro L
-  induction L with
-  | nil =>
-    intro ys h y hy
-    rw [List.mapM_nil] at h
-    cases h
-    cases hy
-  | cons a L ih =>
-    intro ys h y hy
-    rw [List.mapM_cons] at h
-    cases hfa : f a with
-    | error e => rw [hfa] at h; cases h
-    | ok b =>
-      rw [hfa] at h
-      cases hr : L.mapM f with
-      | error e => rw [hr] at h; cases h
-      | ok bs =>
-        rw [hr] at h
-        cases h
-        cases hy with
-        | head => exact ⟨a, by simp, hfa⟩
-        | tail _ hy' =>
-          obtain ⟨x, hx, hfx⟩ := ih bs hr y hy'
-          exact ⟨x, List.mem_cons_of_mem _ hx, hfx⟩
-
-theorem mapM_ok_mem' {α β ε : Type} (f : α → Except ε β) :
-    ∀ (L : List α) (ys : List β), L.mapM f = .ok ys → ∀ x ∈ L, ∃ y ∈ ys, f x = .ok y := by
-  intro L
-  induction L with
-  | nil => intro ys _ x hx; cases hx
-  | cons a L ih =>
-    intro ys h x hx
-    rw [List.mapM_cons] at h
-    cases hfa : f a with
-    | error e => rw [hfa] at h; cases h
-    | ok b =>
-      rw [hfa] at h
-      cases hr : L.mapM f with
-      | error e => rw [hr] at h; cases h
-      | ok bs =>
-        rw [hr] at h
-        cases h
-        cases hx with
-        | head => exact ⟨b, by simp, hfa⟩
-        | tail _ hx' =>
-          obtain ⟨y, hy, hfy⟩ := ih bs hr x hx'
-          exact ⟨y, List.mem_cons_of_mem _ hy, hfy⟩
-
-/-! ## aliases: the code's view (`stripFirst`) against the specification's (`specUnalias`, `specNullable`) -/
-
-theorem spineResolve_nullable (t : Ty) : (spineResolve t).isNullable = specNullable t := by
-  induction t with
-  | alias _ _ t ih => simpa [spineResolve, specNullable] using ih
-  | nullable t _ => simp [spineResolve, specNullable, Ty.isNullable]
-  | list t _ => simp [spineResolve, specNullable, Ty.isNullable]
-  | prim _ => rfl
-  | void => rfl
-  | map _ _ _ _ => rfl
-  | struct _ _ => rfl
-  | union _ _ => rfl
-
-/-- after `remove_aliases_from_api` a field type is `Nullable` exactly when the field is nullable for the spec
-author (directly or through aliases) -/
-theorem stripFirst_nullable (t : Ty) : (stripFirst t).isNullable = specNullable t := by
-  cases t with
-  | alias _ _ t => simpa [stripFirst, specNullable] using spineResolve_nullable t
-  | nullable t => simp [stripFirst, specNullable, Ty.isNullable]
-  | list t => simp [stripFirst, specNullable, Ty.isNullable]
-  | prim _ => rfl
-  | void => rfl
-  | map _ _ => rfl
-  | struct _ _ => rfl
-  | union _ _ => rfl
-
-/-- the two views of a type agree unless both are `Nullable` / `List` headed -/
-def SameHead (a b : Ty) : Prop :=
-  a = b ∨ (∃ x y, a = .nullable x ∧ b = .nullable y) ∨ (∃ x y, a = .list x ∧ b = .list y)
-
-theorem spineResolve_head (t : Ty) : SameHead (spineResolve t) (specUnalias t) := by
-  induction t with
-  | alias _ _ t ih => simpa [spineResolve, specUnalias] using ih
-  | nullable t _ => exact .inr (.inl ⟨_, _, rfl, rfl⟩)
-  | list t _ => exact .inr (.inr ⟨_, _, rfl, rfl⟩)
-  | prim _ => exact .inl rfl
-  | void => exact .inl rfl
-  | map _ _ _ _ => exact .inl rfl
-  | struct _ _ => exact .inl rfl
-  | union _ _ => exact .inl rfl
-
-theorem stripFirst_head (t : Ty) : SameHead (stripFirst t) (specUnalias t) := by
-  cases t with
-  | alias _ _ t => simpa [stripFirst, specUnalias] using spineResolve_head t
-  | nullable t => exact .inr (.inl ⟨_, _, rfl, rfl⟩)
-  | list t => exact .inr (.inr ⟨_, _, rfl, rfl⟩)
-  | prim _ => exact .inl rfl
-  | void => exact .inl rfl
-  | map _ _ => exact .inl rfl
-  | struct _ _ => exact .inl rfl
-  | union _ _ => exact .inl rfl
-
-theorem strip_struct {t : Ty} {a b : Name} (h : stripFirst t = .struct a b) : specUnalias t = .struct a b := by
-  rcases stripFirst_head t with e | ⟨x, y, e, _⟩ | ⟨x, y, e, _⟩
-  · rw [← e, h]
-  · rw [h] at e; cases e
-  · rw [h] at e; cases e
-
-theorem strip_union {t : Ty} {a b : Name} (h : stripFirst t = .union a b) : specUnalias t = .union a b := by
-  rcases stripFirst_head t with e | ⟨x, y, e, _⟩ | ⟨x, y, e, _⟩
-  · rw [← e, h]
-  · rw [h] at e; cases e
-  · rw [h] at e; cases e
-
-theorem strip_void {t : Ty} (h : stripFirst t = .void) : specUnalias t = .void := by
-  rcases stripFirst_head t with e | ⟨x, y, e, _⟩ | ⟨x, y, e, _⟩
-  · rw [← e, h]
-  · rw [h] at e; cases e
-  · rw [h] at e; cases e
-
-theorem unalias_union_strip {t : Ty} {a b : Name} (h : specUnalias t = .union a b) : stripFirst t = .union a b := by
-  rcases stripFirst_head t with e | ⟨x, y, _, e⟩ | ⟨x, y, _, e⟩
-  · rw [e, h]
-  · rw [h] at e; cases e
-  · rw [h] at e; cases e
-
-theorem strip_isVoid (t : Ty) : (stripFirst t).isVoid = (specUnalias t).isVoid := by
-  rcases stripFirst_head t with e | ⟨x, y, e1, e2⟩ | ⟨x, y, e1, e2⟩
-  · rw [e]
-  · rw [e1, e2]; rfl
-  · rw [e1, e2]; rfl
-
-theorem isRequired_strip (f : Field) : isRequired stripFirst f = specRequired f := by
-  simp [isRequired, specRequired, stripFirst_nullable]
-
 /-! ## `required_positional_optional_keyword` -/
-
-/-- the parameter the specification asks for one field -/
-def specParam (f : Field) : Param :=
-  if specRequired f then ⟨f.name, none⟩ else ⟨f.name, some (specDefault f)⟩
-
-theorem fieldParam_spec (f : Field)
-    (hwt : ∀ uns uname tag, f.dflt = some (.tag uns uname tag) → specUnalias f.ty = .union uns uname) :
-    fieldParam f = .ok (specParam f) := by
-  unfold fieldParam specParam specRequired specDefault
-  simp only [stripFirst_nullable]
-  cases hn : specNullable f.ty with
-  | true =>
-    cases hd : f.dflt with
-    | none => simp
-    | some d => cases d <;> simp
-  | false =>
-    cases hd : f.dflt with
-    | none => simp
-    | some d =>
-      cases d with
-      | tag uns uname tag =>
-        have := unalias_union_strip (hwt uns uname tag hd)
-        simp [genPythonValue, this, Ty.userNs, bind, Except.bind, pure, Except.pure]
-      | bool b => simp [genPythonValue, bind, Except.bind, pure, Except.pure]
-      | int i => simp [genPythonValue, bind, Except.bind, pure, Except.pure]
-      | float x => simp [genPythonValue, bind, Except.bind, pure, Except.pure]
-      | str s => simp [genPythonValue, bind, Except.bind, pure, Except.pure]
-
-theorem wellTyped_field {api : Api} {r : Ref} (h : defaultsWellTyped api r = true) {f : Field} (hf : f ∈ declFields api r) :
-    ∀ uns uname tag, f.dflt = some (.tag uns uname tag) → specUnalias f.ty = .union uns uname := by
-  intro uns uname tag hd
-  have := (List.all_eq_true.mp h) f hf
-  simpa [hd] using this
-
-theorem mem_allFields {view : Ty → Ty} {api : Api} {r : Ref} {f : Field} :
-    f ∈ allFields view api r ↔ f ∈ declFields api r := by
-  unfold allFields
-  simp only [List.mem_append, List.mem_filter]
-  constructor
-  · rintro (⟨h, _⟩ | ⟨h, _⟩) <;> exact h
-  · intro h
-    cases hq : isRequired view f
-    · exact .inr ⟨h, by simp⟩
-    · exact .inl ⟨h, rfl⟩
 
 /-- The parameters python_client derives from a struct argument are exactly the ones the property text
 describes: the required fields in declaration order (super types first) without a default, then the optional
@@ -286,20 +72,8 @@ theorem strip_of_unalias_struct (api : Api) (ns : Namespace) (r : Route) (m : Me
 /-! ## `ctor_params_line_up` -/
 
 /-- Both generators walk `all_fields`; python_types sees the aliases, python_client does not. When no field type
-is an alias of a nullable type the two walks give the same list … -/
-theorem allFields_views_agree (api : Api) (r : Ref) (h : noNullableAlias api r = true) :
-    allFields stripFirst api r = structCtorFields api r := by
-  unfold structCtorFields allFields
-  have key : ∀ f ∈ declFields api r, isRequired stripFirst f = isRequired id f := by
-    intro f hf
-    have := (List.all_eq_true.mp h) f hf
-    simp only [beq_iff_eq] at this
-    simp [isRequired, this]
-  congr 1
-  · exact List.filter_congr key
-  · exact List.filter_congr (fun f hf => by rw [key f hf])
-
-/-- … so the positional construction in the method body (`arg = ns.T(p₁, …, pₙ)`) hands every parameter to the
+is an alias of a nullable type the two walks give the same list (`allFields_views_agree`), so the positional
+construction in the method body (`arg = ns.T(p₁, …, pₙ)`) hands every parameter to the
 `__init__` parameter of the same field: the two cooperating sites line up. -/
 theorem ctor_params_line_up (api : Api) (ns : Namespace) (r : Route) (m : Method) (toFile : Bool)
     (hm : routeMethod api ns r toFile = .ok m) (mod cls : Name) (ty : Ref) (args : List Name)
@@ -333,192 +107,18 @@ def exNullAlias : Api :=
       ⟨"last".toList, .prim "String".toList, none⟩] }] }
 
 example : structCtorParams exNullAlias ("al".toList, "A".toList) = ["id".toList, "note".toList, "last".toList] := by decide
+
 example : (allFields stripFirst exNullAlias ("al".toList, "A".toList)).map (·.name) = ["id".toList, "last".toList, "note".toList] := by
   decide
+
 example : noNullableAlias exNullAlias ("al".toList, "A".toList) = false := by decide
 
-/-! ## call binding and the method body -/
-
-theorem bindGo_keys : ∀ (ps : List BParam) (vs : List Val) (kw σ : List (Name × Val)),
-    bindGo ps vs kw = .ok σ → σ.map (·.1) = ps.map (·.1) := by
-  intro ps
-  induction ps with
-  | nil =>
-    intro vs kw σ h
-    cases vs with
-    | nil => simp [bindGo] at h; subst h; rfl
-    | cons v vs => simp [bindGo] at h
-  | cons p ps ih =>
-    intro vs kw σ h
-    cases vs with
-    | cons v vs =>
-      simp only [bindGo] at h
-      split at h
-      · cases h
-      · cases hr : bindGo ps vs kw with
-        | error e => rw [hr] at h; cases h
-        | ok σ' =>
-          rw [hr] at h
-          simp only [Except.map] at h
-          cases h
-          simp [ih vs kw σ' hr]
-    | nil =>
-      simp only [bindGo] at h
-      split at h
-      · cases hr : bindGo ps [] kw with
-        | error e => rw [hr] at h; cases h
-        | ok σ' =>
-          rw [hr] at h
-          simp only [Except.map] at h
-          cases h
-          simp [ih [] kw σ' hr]
-      · split at h
-        · cases hr : bindGo ps [] kw with
-          | error e => rw [hr] at h; cases h
-          | ok σ' =>
-            rw [hr] at h
-            simp only [Except.map] at h
-            cases h
-            simp [ih [] kw σ' hr]
-        · cases h
-
-theorem bindArgs_keys (ps : List BParam) (c : Call) (σ : List (Name × Val)) (h : bindArgs ps c = .ok σ) :
-    σ.map (·.1) = ps.map (·.1) := by
-  unfold bindArgs at h
-  split at h
-  · cases h
-  · split at h
-    · cases h
-    · exact bindGo_keys _ _ _ _ h
-
-theorem resolveGlobal_ok {cm : ClientModule} {m : Method} {n : Name} (h : hygienic cm m = true)
-    (hn : n ∈ globalsUsed m) : resolveGlobal cm m n = .ok () := by
-  have := (List.all_eq_true.mp h) n hn
-  simp only [Bool.and_eq_true, Bool.not_eq_true', List.contains_eq_mem, decide_eq_false_iff_not, decide_eq_true_eq] at this
-  simp [resolveGlobal, this.1, this.2]
-
-theorem lookupLocal_of_key {σ : List (Name × Val)} {n : Name} (h : n ∈ σ.map (·.1)) :
-    ∃ v, lookup σ n = some v ∧ lookupLocal σ n = .ok v := by
-  obtain ⟨v, hv⟩ := lookup_some_of_mem_keys σ n h
-  exact ⟨v, hv, by simp [lookupLocal, hv]⟩
-
-/-- value of a parameter in a complete binding -/
-def getV (σ : List (Name × Val)) (n : Name) : Val := (lookup σ n).getD .none
-
-theorem mapM_lookupLocal {σ : List (Name × Val)} (args : List Name) (h : ∀ n ∈ args, n ∈ σ.map (·.1)) :
-    args.mapM (lookupLocal σ) = .ok (args.map (getV σ)) := by
-  apply mapM_ok_of_forall
-  intro n hn
-  obtain ⟨v, hv, hl⟩ := lookupLocal_of_key (h n hn)
-  simp [hl, getV, hv]
-
-
-theorem filterMap_congr' {α β : Type} (f g : α → Option β) (L : List α) (h : ∀ a ∈ L, f a = g a) :
-    L.filterMap f = L.filterMap g := by
-  induction L with
-  | nil => rfl
-  | cons a L ih =>
-    simp only [List.filterMap_cons, h a (by simp)]
-    rw [ih (fun b hb => h b (List.mem_cons_of_mem _ hb))]
-
-theorem ctorApply_direct (api : Api) (ty : Ref) (σ : List (Name × Val))
-    (hna : noNullableAlias api ty = true)
-    (hinj : ∀ f ∈ declFields api ty, ∀ f' ∈ declFields api ty, fmtVarR f'.name = fmtVarR f.name → f'.name = f.name)
-    (hkeys : ∀ f ∈ declFields api ty, f.name ∈ σ.map (·.1)) :
-    ctorApply api ty (typesClassOf ty).1 (typesClassOf ty).2 (((allFields stripFirst api ty).map (·.name)).map (getV σ))
-      = .ok (structDirect api ty σ) := by
-  unfold ctorApply structCtorParams
-  rw [← allFields_views_agree api ty hna]
-  generalize hL : allFields stripFirst api ty = L
-  have hmem : ∀ f, f ∈ declFields api ty → f ∈ L := fun f hf => hL ▸ mem_allFields.mpr hf
-  have hmem' : ∀ f, f ∈ L → f ∈ declFields api ty := fun f hf => mem_allFields.mp (hL ▸ hf)
-  simp only [List.length_map, Nat.lt_irrefl, gt_iff_lt, ↓reduceIte, Nat.sub_self, List.replicate_zero, List.append_nil,
-    List.map_map]
-  unfold structDirect
-  congr 2
-  apply filterMap_congr'
-  intro f hf
-  have h1 := lookup_zip_map L (fun f => fmtVarR f.name) ((getV σ) ∘ (fun f => f.name)) f (hmem f hf)
-    (fun b hb hk => by
-      have := hinj f hf b (hmem' b hb) hk
-      simp [this])
-  simp only [Function.comp] at h1 ⊢
-  rw [h1]
-  obtain ⟨v, hv⟩ := lookup_some_of_mem_keys σ f.name (hkeys f hf)
-  simp [getV, hv]
-
+/-! ## `client_call_builds_arg` -/
 
 /-- the hypotheses about a struct argument type that the generator does not establish itself -/
 def StructArgOk (api : Api) (ty : Ref) : Prop :=
   noNullableAlias api ty = true ∧
   ∀ f ∈ declFields api ty, ∀ f' ∈ declFields api ty, fmtVarR f'.name = fmtVarR f.name → f'.name = f.name
-
-theorem fieldParam_name {f : Field} {p : Param} (h : fieldParam f = .ok p) : p.name = f.name := by
-  unfold fieldParam at h
-  simp only at h
-  cases hn : (stripFirst f.ty).isNullable
-  · rw [hn] at h
-    cases hd : f.dflt with
-    | none => rw [hd] at h; simp at h; rw [← h]
-    | some d =>
-      rw [hd] at h
-      simp only [Bool.false_eq_true, ↓reduceIte] at h
-      cases hg : genPythonValue f.name (stripFirst f.ty).userNs d with
-      | error e => rw [hg] at h; cases h
-      | ok e => rw [hg] at h; cases h; rfl
-  · rw [hn] at h; simp at h; rw [← h]
-
-theorem argParams_names_struct (api : Api) (ty : Ref) (ps : List Param)
-    (h : (allFields stripFirst api ty).mapM fieldParam = .ok ps) :
-    ps.map (·.name) = (allFields stripFirst api ty).map (·.name) := by
-  generalize allFields stripFirst api ty = L at h
-  induction L generalizing ps with
-  | nil => rw [List.mapM_nil] at h; cases h; rfl
-  | cons f L ih =>
-    rw [List.mapM_cons] at h
-    cases hf : fieldParam f with
-    | error e => rw [hf] at h; cases h
-    | ok p =>
-      rw [hf] at h
-      cases hr : L.mapM fieldParam with
-      | error e => rw [hr] at h; cases h
-      | ok ps' =>
-        rw [hr] at h
-        cases h
-        simp [fieldParam_name hf, ih ps' hr]
-
-theorem warnings_mem_globalsUsed {m : Method} (h : m.deprecated = true) : "warnings".toList ∈ globalsUsed m := by
-  unfold globalsUsed
-  rw [h]
-  exact List.mem_append_left _ (List.mem_append_left _ (List.mem_singleton.mpr rfl))
-
-theorem routeMod_mem_globalsUsed (m : Method) : m.routeMod ∈ globalsUsed m := by
-  unfold globalsUsed
-  exact List.mem_append_right _ (List.mem_singleton.mpr rfl)
-
-theorem ctorMod_mem_globalsUsed {m : Method} {mod cls : Name} {ty : Ref} {args : List Name}
-    (h : m.argBuild = .ctor mod cls ty args) : mod ∈ globalsUsed m := by
-  unfold globalsUsed
-  rw [h]
-  exact List.mem_append_left _ (List.mem_append_right _ (List.mem_singleton.mpr rfl))
-
-theorem warnStep_ok {cm : ClientModule} {m : Method} (hyg : hygienic cm m = true) : warnStep cm m = .ok () := by
-  unfold warnStep
-  cases hd : m.deprecated
-  · rfl
-  · simp only [↓reduceIte]
-    exact resolveGlobal_ok hyg (warnings_mem_globalsUsed hd)
-
-/-- the body of a generated method that is not a `_to_file` twin, given its argument and body steps -/
-theorem runMethod_steps (api : Api) (cm : ClientModule) (m : Method) (σ : List (Name × Val)) (obj : ArgObj) (b : Option Val)
-    (hyg : hygienic cm m = true) (htf : m.toFile = false)
-    (harg : buildArg api cm m σ = .ok obj) (hbody : bodyArg m σ = .ok b) :
-    runMethod api cm m σ = .ok
-      { requests := [{ route := (m.routeMod, m.routeVar), ns := m.nsLit, arg := obj, body := b }]
-        warned := m.deprecated, saved := none, ret := if m.resultVoid then .none else .result } := by
-  have hroute := resolveGlobal_ok hyg (routeMod_mem_globalsUsed m)
-  have hsaved : savedArg m σ = .ok none := by simp [savedArg, htf]
-  simp only [runMethod, warnStep_ok hyg, harg, hroute, hbody, hsaved, htf, Bool.false_eq_true, ↓reduceIte]
 
 /-- `client_call_builds_arg`: for the method the backend generates for a route whose argument is a struct, a
 union or Void, and every complete binding `σ` of its parameters (in particular every `σ` produced by `bindArgs`,
@@ -618,5 +218,306 @@ theorem client_call_builds_arg (api : Api) (cm : ClientModule) (ns : Namespace) 
     | list t => rw [harg] at hp; cases hp
     | map k v => rw [harg] at hp; cases hp
     | alias a b t => rw [harg] at hp; cases hp
+
+/-- `client_call_builds_arg` for a binding produced by Python's call rules -/
+theorem client_call_via_bindArgs (api : Api) (cm : ClientModule) (ns : Namespace) (r : Route) (m : Method)
+    (hm : routeMethod api ns r false = .ok m) (hyg : hygienic cm m = true)
+    (hst : ∀ sns sname, stripFirst r.arg = .struct sns sname → StructArgOk api (sns, sname))
+    (ps : List BParam) (hps : ps.map (·.1) = m.params.map (·.name))
+    (call : Call) (σ : List (Name × Val)) (hb : bindArgs ps call = .ok σ) :
+    runMethod api cm m σ = .ok (expectedOutcome api ns r σ) :=
+  client_call_builds_arg api cm ns r m hm hyg hst σ (by rw [bindArgs_keys ps call σ hb, hps])
+
+/-- positional arguments bind the leading parameters in order, the others take their defaults -/
+theorem bind_positional_prefix : ∀ (ps : List BParam) (vs : List Val),
+    vs.length ≤ ps.length → (∀ p ∈ ps.drop vs.length, p.2.isSome) →
+    bindArgs ps ⟨vs, []⟩ = .ok ((ps.take vs.length).map (·.1) |>.zip vs |>.append
+      ((ps.drop vs.length).map fun p => (p.1, p.2.getD .none))) := by
+  intro ps vs hlen hd
+  simp only [bindArgs, hasDup, List.map_nil, List.any_nil, Bool.false_eq_true, ↓reduceIte]
+  induction ps generalizing vs with
+  | nil =>
+    cases vs with
+    | nil => rfl
+    | cons v vs => simp at hlen
+  | cons p ps ih =>
+    cases vs with
+    | nil =>
+      have hp : p.2.isSome := hd p (by simp)
+      have := ih [] (by simp) (fun q hq => hd q (by simp at hq ⊢; exact .inr hq))
+      simp only [List.length_nil, List.take_zero, List.map_nil, List.zip_nil_left, List.drop_zero, List.append_eq,
+        List.nil_append] at this ⊢
+      cases hv : p.2 with
+      | none => rw [hv] at hp; cases hp
+      | some d => simp [bindGo, lookup, hv, this, Except.map]
+    | cons v vs =>
+      have := ih vs (by simpa using hlen) (fun q hq => hd q (by simpa using hq))
+      simp only [List.append_eq] at this
+      simp [bindGo, lookup, this, Except.map]
+
+/-! ## `method_names_injective`, one method per route version -/
+
+/-- Inside one namespace that passes `check_route_name_conflict`, two routes with the same method name are the
+same route. -/
+theorem method_names_injective_in_namespace (ns : Namespace) (h : routeNameConflict ns = false)
+    (r1 r2 : Route) (h1 : r1 ∈ ns.routes) (h2 : r2 ∈ ns.routes) (he : mainName ns r1 = mainName ns r2) : r1 = r2 := by
+  have hnd := (conflict_go_false [] ns.routes h).1
+  apply inj_of_nodup_map _ _ hnd r1 h1 r2 h2
+  exact List.append_cancel_left he
+
+/-- `method_names_injective`: under `check_route_name_conflict` (per namespace, what the backend checks) and when no
+namespace's prefix `<ns>_` is a prefix of another's (what it does not check), the method name determines the
+route version: namespace, route and version. -/
+theorem method_names_injective (api : Api)
+    (hconf : ∀ ns ∈ api.namespaces, routeNameConflict ns = false)
+    (hpf : nsPrefixFree api = true)
+    (huniq : ∀ a ∈ api.namespaces, ∀ b ∈ api.namespaces, a.name = b.name → a = b)
+    (ns1 ns2 : Namespace) (h1 : ns1 ∈ api.namespaces) (h2 : ns2 ∈ api.namespaces)
+    (r1 r2 : Route) (hr1 : r1 ∈ ns1.routes) (hr2 : r2 ∈ ns2.routes)
+    (he : mainName ns1 r1 = mainName ns2 r2) : ns1 = ns2 ∧ r1 = r2 := by
+  have hns : ns1 = ns2 := by
+    apply huniq ns1 h1 ns2 h2
+    have hp := (List.all_eq_true.mp hpf)
+    have h12 := (List.all_eq_true.mp (hp ns1 h1)) ns2 h2
+    have h21 := (List.all_eq_true.mp (hp ns2 h2)) ns1 h1
+    simp only [Bool.or_eq_true, beq_iff_eq, Bool.not_eq_true'] at h12 h21
+    unfold mainName at he
+    rcases isPrefix_of_append_eq _ _ _ _ he with hpre | hpre
+    · rcases h12 with h | h
+      · exact h
+      · rw [hpre] at h; cases h
+    · rcases h21 with h | h
+      · exact h.symm
+      · rw [hpre] at h; cases h
+  subst hns
+  exact ⟨rfl, method_names_injective_in_namespace ns1 (hconf ns1 h1) r1 r2 hr1 hr2 he⟩
+
+/-- "offers one method per route version": when the backend produces a module at all, every route version of
+every namespace has its method in the class. -/
+theorem offers_method_per_route (api : Api) (cm : ClientModule) (h : pyClient api = .ok cm)
+    (ns : Namespace) (hns : ns ∈ api.namespaces) (r : Route) (hr : r ∈ ns.routes) :
+    ∃ m ∈ cm.methods, routeMethod api ns r false = .ok m ∧ m.name = mainName ns r := by
+  unfold pyClient at h
+  obtain ⟨mss, hmss, rfl⟩ := except_map_ok h
+  have hin : ns ∈ api.namespaces.filter (fun ns => !ns.routes.isEmpty) := by
+    apply List.mem_filter.mpr
+    refine ⟨hns, ?_⟩
+    cases hrs : ns.routes with
+    | nil => rw [hrs] at hr; cases hr
+    | cons _ _ => rfl
+  obtain ⟨ms, hms, hnsm⟩ := mapM_ok_mem' _ _ _ hmss ns hin
+  unfold nsMethods at hnsm
+  split at hnsm
+  · cases hnsm
+  · obtain ⟨lss, hlss, rfl⟩ := except_map_ok hnsm
+    obtain ⟨l, hl, hrl⟩ := mapM_ok_mem' _ _ _ hlss r hr
+    obtain ⟨m, hm, hrm⟩ := routeMethods_main hrl
+    refine ⟨m, ?_, hrm, (routeMethod_name hrm).1⟩
+    simp only [List.mem_flatten]
+    exact ⟨lss.flatten, hms, List.mem_flatten.mpr ⟨l, hl, hm⟩⟩
+
+/-- … and nothing else: every method of the class is the method (or the `_to_file` twin) of a route of a
+namespace that passed `check_route_name_conflict`. -/
+theorem methods_come_from_routes (api : Api) (cm : ClientModule) (h : pyClient api = .ok cm)
+    (m : Method) (hm : m ∈ cm.methods) :
+    ∃ ns ∈ api.namespaces, routeNameConflict ns = false ∧ ∃ r ∈ ns.routes, ∃ tf, routeMethod api ns r tf = .ok m := by
+  unfold pyClient at h
+  obtain ⟨mss, hmss, rfl⟩ := except_map_ok h
+  simp only [List.mem_flatten] at hm
+  obtain ⟨ms, hms, hmms⟩ := hm
+  obtain ⟨ns, hns, hnsm⟩ := mapM_ok_mem _ _ _ hmss ms hms
+  have hns' := (List.mem_filter.mp hns).1
+  unfold nsMethods at hnsm
+  split at hnsm
+  · cases hnsm
+  · rename_i hc
+    obtain ⟨lss, hlss, rfl⟩ := except_map_ok hnsm
+    obtain ⟨l, hl, hml⟩ := List.mem_flatten.mp hmms
+    obtain ⟨r, hr, hrl⟩ := mapM_ok_mem _ _ _ hlss l hl
+    obtain ⟨tf, htf⟩ := routeMethods_all hrl m hml
+    exact ⟨ns, hns', by simpa using hc, r, hr, tf, htf⟩
+
+/-! ## literal tables of the code -/
+
+/-- The literals the model was written from, as the translator finds them in the repository under test: the two
+word-splitting regexes of helpers.py, `_reserved_keywords` and the `_v{}` suffix of python_helpers.py, the key of
+`check_route_name_conflict`, and in python_client.py the `style` values tested, the `_to_file` twin, the parameter
+literals of `_generate_route_method_decl`, the arguments of `self.request`, the return statements, the method
+name, the import condition and the abstract `request` signature. Editing any of them breaks this theorem. -/
+theorem tables_pinned :
+    Tables.helpersWordRegexes =
+      [("_split_words_capitalization_re", "^[a-z0-9]+|[A-Z][a-z0-9]+|[A-Z]+(?=[A-Z][a-z0-9])|[A-Z]+$"),
+       ("_split_words_dashes_re", "[-_/]+")] ∧
+    Tables.pyHelpersReservedKeywords.map String.toList = reservedKeywords ∧
+    Tables.fmtFuncVersionFormats = ["{}_v{}"] ∧ Tables.fmtFuncDefaultVersion = 1 ∧
+    Tables.routeNameConflictKey = ["fmt_func(route.name, version=route.version)"] ∧
+    Tables.pyClientStyleTestsHelper = ["upload", "download"] ∧
+    Tables.pyClientStyleTestsRoutes = ["download", "download"] ∧
+    Tables.pyClientToFileDecl = [("extra_args", "['download_path']"), ("method_name_suffix", "'_to_file'")] ∧
+    Tables.pyClientDeclArgs = ["['self']", "'f'", "'arg'", "'{}=None'.format(field.name)", "arg", "field.name"] ∧
+    Tables.pyClientRequestArgs =
+      ["['{}.{}'.format(fmt_namespace(namespace.name), fmt_func(route.name, version=route.version)), \"'{}'\".format(namespace.name), 'arg']",
+       "'f'", "'None'"] ∧
+    Tables.pyClientBodyLines =
+      ["'arg = None'", "'self._save_body_to_file(download_path, r[1])'", "'return None'", "'return r[0]'", "'return None'",
+       "'return r'"] ∧
+    Tables.pyClientMethodName =
+      ["fmt_func(route.name + method_name_suffix, version=route.version)", "fmt_underscores(namespace.name)"] ∧
+    Tables.pyClientImportTest = ["namespace.data_types"] ∧
+    Tables.pyClientRequestSignature = ["def request(self, route, namespace, request_arg, request_binary, timeout=None):"] :=
+  ⟨rfl, by decide, rfl, rfl, rfl, rfl, rfl, rfl, rfl, rfl, rfl, rfl, rfl, rfl⟩
+
+/-! ## a concrete instance (non-vacuity) and the reachable counterexamples of the hypotheses -/
+
+private def s (x : String) : Name := x.toList
+private def str : Ty := .prim (s "String")
+
+/-- `common`: union WriteMode, struct PathRoot(root_id, limit = 25, trace?); `files`: struct UploadArg extends
+common.PathRoot (path, mode common.WriteMode = add), upload-style deprecated route `upload:2(UploadArg, Void)`,
+route `get(UploadArgAlias, PathRoot)`, `pick(WriteMode, Void)`, `noop(Void, Void)`. -/
+def exApi : Api :=
+  { namespaces := [
+      { name := s "common", dataTypes := [s "PathRoot", s "WriteMode"], aliases := [], routes := [] },
+      { name := s "files", dataTypes := [s "UploadArg"],
+        aliases := [(s "UploadArgAlias", .struct (s "files") (s "UploadArg"))],
+        routes := [
+          { name := s "get", version := 1, arg := .alias (s "files") (s "UploadArgAlias") (.struct (s "files") (s "UploadArg")),
+            result := .struct (s "common") (s "PathRoot"), deprecated := none, style := none },
+          { name := s "noop", version := 1, arg := .void, result := .void, deprecated := none, style := some (s "rpc") },
+          { name := s "pick", version := 1, arg := .union (s "common") (s "WriteMode"), result := .void,
+            deprecated := some none, style := none },
+          { name := s "upload", version := 2, arg := .struct (s "files") (s "UploadArg"), result := .void,
+            deprecated := some (some (s "upload", 3)), style := some (s "upload") }] }]
+    structs := [
+      { ref := (s "common", s "PathRoot"), parent := none, fields := [
+          ⟨s "root_id", str, none⟩, ⟨s "limit", .prim (s "UInt32"), some (.int 25)⟩, ⟨s "trace", .nullable str, none⟩] },
+      { ref := (s "files", s "UploadArg"), parent := some (s "common", s "PathRoot"), fields := [
+          ⟨s "path", str, none⟩,
+          ⟨s "mode", .union (s "common") (s "WriteMode"), some (.tag (s "common") (s "WriteMode") (s "add"))⟩] }] }
+
+/-- run `f` on the generated module -/
+def withModule (api : Api) (f : ClientModule → Bool) : Bool :=
+  match pyClient api with
+  | .ok cm => f cm
+  | .error _ => false
+
+def loadResult (api : Api) (cm : ClientModule) : Option PyErr :=
+  match loadModule api cm with
+  | .ok _ => none
+  | .error e => some e
+
+def callOk (api : Api) (method : String) (c : Call) (want : Outcome) : Bool :=
+  withModule api fun cm =>
+    match classAttr cm method.toList with
+    | some m => (match callMethod api cm m c with | .ok o => o == want | .error _ => false)
+    | none => false
+
+def callErr (api : Api) (method : String) (c : Call) (want : PyErr) : Bool :=
+  withModule api fun cm =>
+    match classAttr cm method.toList with
+    | some m => (match callMethod api cm m c with | .ok _ => false | .error e => e == want)
+    | none => false
+
+example : (pyClientMethods exApi).map (·.name) =
+    [s "files_get", s "files_noop", s "files_pick", s "files_upload_v2"] := by decide
+
+-- every hypothesis of `client_call_builds_arg` holds of this instance
+example : withModule exApi (fun cm => cm.methods.all (hygienic cm) && (loadResult exApi cm == none)) = true := by decide
+example : noNullableAlias exApi (s "files", s "UploadArg") = true ∧ defaultsWellTyped exApi (s "files", s "UploadArg") = true ∧
+    nsPrefixFree exApi = true := by decide
+
+-- parameters: upload body, required fields (parents first), optional ones with their defaults
+example : withModule exApi (fun cm => (classAttr cm (s "files_upload_v2")).map (·.params) ==
+    some [⟨s "f", none⟩, ⟨s "root_id", none⟩, ⟨s "path", none⟩, ⟨s "limit", some (.lit (.int 25))⟩,
+          ⟨s "trace", some .pyNone⟩, ⟨s "mode", some (.tagAttr (s "common") (s "WriteMode") (s "add"))⟩]) = true := by decide
+
+-- `files_upload_v2(body, root, path='p', trace=t)`: one request, struct built field by field, default passed on, warning
+example : callOk exApi "files_upload_v2" ⟨[.tok 0, .tok 1], [(s "path", .tok 2), (s "trace", .tok 3)]⟩
+    { requests := [{ route := (s "files", s "upload_v2"), ns := s "files"
+                     arg := .struct (s "files") (s "UploadArg")
+                       [(s "root_id", .tok 1), (s "limit", .lit (.int 25)), (s "trace", .tok 3), (s "path", .tok 2),
+                        (s "mode", .tagObj (s "common", s "WriteMode") (s "add"))]
+                     body := some (.tok 0) }]
+      warned := true, saved := none, ret := .none } = true := by decide
+
+example : callOk exApi "files_pick" ⟨[], [(s "arg", .tok 7)]⟩
+    { requests := [{ route := (s "files", s "pick"), ns := s "files", arg := .value (.tok 7), body := none }]
+      warned := true, saved := none, ret := .none } = true := by decide
+
+example : callOk exApi "files_get" ⟨[.tok 1, .tok 2, .none], []⟩
+    { requests := [{ route := (s "files", s "get"), ns := s "files"
+                     arg := .struct (s "files") (s "UploadArg")
+                       [(s "root_id", .tok 1), (s "path", .tok 2), (s "mode", .tagObj (s "common", s "WriteMode") (s "add"))]
+                     body := none }]
+      warned := false, saved := none, ret := .result } = true := by decide
+
+-- call binding errors
+example : callErr exApi "files_noop" ⟨[.tok 0], []⟩ .typeError = true := by decide
+example : callErr exApi "files_get" ⟨[.tok 0], [(s "root_id", .tok 1)]⟩ .typeError = true := by decide
+example : callErr exApi "files_get" ⟨[.tok 0], []⟩ .typeError = true := by decide
+example : callErr exApi "files_get" ⟨[.tok 0, .tok 1], [(s "nope", .tok 1)]⟩ .typeError = true := by decide
+
+/-! ### the hypotheses are needed (each of these is reported on the real code by the harness) -/
+
+/-- D17: an upload-style route whose argument struct has a field `f` -/
+def exDupF : Api :=
+  { namespaces := [{ name := s "files", dataTypes := [s "PutArg"], aliases := [], routes :=
+      [{ name := s "put", version := 1, arg := .struct (s "files") (s "PutArg"), result := .void, deprecated := none,
+         style := some (s "upload") }] }]
+    structs := [{ ref := (s "files", s "PutArg"), parent := none, fields := [⟨s "path", str, none⟩, ⟨s "f", str, none⟩] }] }
+
+example : withModule exDupF (fun cm => loadResult exDupF cm == some (.syntaxError (s "files_put") (s "duplicate"))) = true := by
+  decide
+
+/-- a namespace with routes but no data types is never imported: `hygienic` fails, the call raises NameError -/
+def exNoImport : Api :=
+  { namespaces := [{ name := s "check", dataTypes := [], aliases := [], routes :=
+      [{ name := s "ping", version := 1, arg := .void, result := .void, deprecated := none, style := none }] }]
+    structs := [] }
+
+example : withModule exNoImport (fun cm => cm.methods.all (fun m => !hygienic cm m)) = true := by decide
+example : callErr exNoImport "check_ping" ⟨[], []⟩ (.nameError (s "check")) = true := by decide
+
+/-- a field named like the module the body needs -/
+def exShadow : Api :=
+  { namespaces := [{ name := s "sh", dataTypes := [s "A"], aliases := [], routes :=
+      [{ name := s "ra", version := 1, arg := .struct (s "sh") (s "A"), result := .void, deprecated := none, style := none }] }]
+    structs := [{ ref := (s "sh", s "A"), parent := none, fields := [⟨s "sh", str, none⟩] }] }
+
+example : callErr exShadow "sh_ra" ⟨[.tok 0], []⟩ (.shadowed (s "sh")) = true := by decide
+
+/-- `exNullAlias` (above): the request carries `last` in the field `note` -/
+example : callOk exNullAlias "al_r" ⟨[.tok 0, .tok 1, .tok 2], []⟩
+    { requests := [{ route := (s "al", s "r"), ns := s "al"
+                     arg := .struct (s "al") (s "A") [(s "id", .tok 0), (s "note", .tok 1), (s "last", .tok 2)], body := none }]
+      warned := false, saved := none, ret := .none } = true := by decide
+example : structDirect exNullAlias (s "al", s "A") [(s "id", .tok 0), (s "last", .tok 1), (s "note", .tok 2)] =
+    .struct (s "al") (s "A") [(s "id", .tok 0), (s "note", .tok 2), (s "last", .tok 1)] := by decide
+
+/-- `team` + `log_get` and `team_log` + `get` -/
+def exNsClash : Api :=
+  { namespaces := [
+      { name := s "team", dataTypes := [], aliases := [], routes :=
+        [{ name := s "log_get", version := 1, arg := .void, result := .void, deprecated := none, style := none }] },
+      { name := s "team_log", dataTypes := [], aliases := [], routes :=
+        [{ name := s "get", version := 1, arg := .void, result := .void, deprecated := none, style := none }] }]
+    structs := [] }
+
+example : (pyClientMethods exNsClash).map (·.name) = [s "team_log_get", s "team_log_get"] ∧ nsPrefixFree exNsClash = false := by
+  decide
+
+/-- a tag default declared through an alias that lives in another namespace than the union -/
+def exForeignAlias : Api :=
+  { namespaces := [
+      { name := s "common", dataTypes := [s "WriteMode"], aliases := [], routes := [] },
+      { name := s "files", dataTypes := [s "Arg"], aliases := [(s "ForeignMode", .union (s "common") (s "WriteMode"))], routes :=
+        [{ name := s "put", version := 1, arg := .struct (s "files") (s "Arg"), result := .void, deprecated := none, style := none }] }]
+    structs := [{ ref := (s "files", s "Arg"), parent := none, fields := [
+      ⟨s "mode", .alias (s "files") (s "ForeignMode") (.union (s "common") (s "WriteMode")),
+        some (.tag (s "files") (s "ForeignMode") (s "add"))⟩] }] }
+
+example : withModule exForeignAlias (fun cm => loadResult exForeignAlias cm == some (.attributeError (s "ForeignMode"))) = true := by
+  decide
+example : defaultsWellTyped exForeignAlias (s "files", s "Arg") = false := by decide
 
 end StoneVerif.C14
